@@ -1,9 +1,11 @@
 // C14 harness: runs the real dialect::doHOLA on one graph and dumps the drawing before and after.
-// usage: c14_hola <casefile>
-//   casefile:  first line   "O key=value key=value ..."   (HolaOpts fields, see setOpt below)
-//              rest         a TGLF text (nodes "id cx cy w h", "#", edges "src tgt", optional "#", SEPCO lines);
-//                           the graph is built by dialect::buildGraphFromTglf, i.e. through Node::allocate /
-//                           Edge::allocate / Graph::addNode / Graph::addEdge.
+// usage: c14_hola [--trace] <casefile>
+//   --trace   instead of dialect::doHOLA run traceHOLA below: a verbatim copy of doHOLA (hola.cpp:59-439 of the tree the
+//             check was written against; only public libdialect API), WITHOUT a Logger (a Logger changes code
+//             paths: nodeconfig.cpp:217, graphs.cpp:741), plus a snapshot of the core graph /
+//             the planarised graph P taken at the END (see the note in traceHOLA).  Used ONLY by the known-finding classifiers of
+//             checks/c14.py: the drawing that is judged always comes from the real doHOLA (a run without --trace), and
+//             a classifier that uses a snapshot first requires that the traced run reproduces the judged drawing.
 // output (all numbers "%.17g", ids are the external ids of the TGLF):
 //   P <nodePaddingScalar> <IEL as the library computes it>
 //   B N id cx cy w h            one per node, before doHOLA
@@ -13,7 +15,13 @@
 //   A X extraBdryGap
 //   A S src tgt xgt ygt xst yst sx |xgap| sy |ygap|     every SepPair of G.getSepMatrix(); sx/sy = signbit
 //   T <seconds>
-//   EXC <what>                  an exception (or failed COLA_ASSERT in the exc flavour) escaped doHOLA
+//   (--trace) A B src tgt k id1 x1 y1 ... idk xk yk     Edge::getBendNodes() of an edge of G at the end
+//   (--trace) C B src tgt bend nbr1 nbr2                every AestheticBend of every Chain (edge of G, ids as in L lines)
+//   (--trace) L <stage> N id cx cy w h | L <stage> E src tgt k x1 y1 .. | L <stage> X gap | L <stage> S <as A S>
+//             snapshot of a graph of the pipeline; <stage> is the name doHOLA would log it under ("08_planar_graph_P", ..)
+//             or P_final / core_final (taken after the last statement); ids: external id for a node of G, 2^20 + internal id otherwise
+//             (aesthetic bend, route bend, crossing, tree buffer nodes)
+//   (--trace) R root member member ...                  the node ids of every peeled tree
 #include <cstddef>
 #include <cfloat>
 #include <cmath>
@@ -56,6 +64,21 @@
 #include "libdialect/io.h"
 #include "libdialect/hola.h"
 #include "libdialect/opts.h"
+#include "libdialect/commontypes.h"
+#include "libdialect/graphs.h"
+#include "libdialect/peeling.h"
+#include "libdialect/trees.h"
+#include "libdialect/nodeconfig.h"
+#include "libdialect/aca.h"
+#include "libdialect/chains.h"
+#include "libdialect/routing.h"
+#include "libdialect/planarise.h"
+#include "libdialect/faces.h"
+#include "libdialect/treeplacement.h"
+#include "libdialect/nearalign.h"
+#include "libdialect/logging.h"
+#include "libdialect/util.h"
+#include "libavoid/libavoid.h"
 #include "libvpsc/exceptions.h"
 #undef private
 #undef protected
@@ -93,9 +116,450 @@ static bool setOpt(HolaOpts &o, const std::string &k, double v)
     return true;
 }
 
+static void dumpSeps(const char *prefix, SepMatrix &m, std::function<int(id_type)> name)
+{
+    printf("%s X %.17g\n", prefix, m.getExtraBdryGap());
+    for (auto &p : m.m_sparseLookup) for (auto &q : p.second) {
+        if (!q.second) continue;
+        const SepPair &sp = *q.second;
+        printf("%s S %d %d %d %d %d %d %d %.17g %d %.17g\n", prefix, name(sp.src), name(sp.tgt), (int)sp.xgt, (int)sp.ygt, (int)sp.xst, (int)sp.yst,
+               (int)std::signbit(sp.xgap), std::fabs(sp.xgap), (int)std::signbit(sp.ygap), std::fabs(sp.ygap));
+    }
+}
+
+static std::map<id_type, int> g_ext;      // internal id -> external id, for the nodes of G
+static int outId(id_type i) { auto it = g_ext.find(i); return it != g_ext.end() ? it->second : (1 << 20) + (int)i; }
+
+// snapshot of a graph of the pipeline WITHOUT a single heap allocation (members are read directly, printf into the
+// already allocated stdout buffer): the library's results depend on heap layout (std::set<Event*> and
+// std::set<EdgeSegment*> in planarise.cpp iterate in pointer order), so the traced run must allocate exactly like
+// the real doHOLA or it would not reproduce the drawing it is meant to explain
+static void snap(Graph &h, const char *stage)
+{
+    for (auto &p : h.m_nodes) {
+        Node &u = *p.second;
+        printf("L %s N %d %.17g %.17g %.17g %.17g\n", stage, outId(p.first), u.m_cx, u.m_cy, u.m_w, u.m_h);
+    }
+    for (auto &p : h.m_edges) {
+        Edge &e = *p.second;
+        printf("L %s E %d %d %zu", stage, outId(Node_SP(e.m_src)->id()), outId(Node_SP(e.m_tgt)->id()), e.m_route.size());
+        for (auto &q : e.m_route) printf(" %.17g %.17g", q.x, q.y);
+        printf("\n");
+    }
+    SepMatrix &m = h.m_sepMatrix;
+    printf("L %s X %.17g\n", stage, m.m_extraBdryGap);
+    for (auto &p : m.m_sparseLookup) for (auto &q : p.second) {
+        if (!q.second) continue;
+        const SepPair &sp = *q.second;
+        printf("L %s S %d %d %d %d %d %d %d %.17g %d %.17g\n", stage, outId(sp.src), outId(sp.tgt), (int)sp.xgt, (int)sp.ygt, (int)sp.xst, (int)sp.yst,
+               (int)std::signbit(sp.xgap), std::fabs(sp.xgap), (int)std::signbit(sp.ygap), std::fabs(sp.ygap));
+    }
+}
+
+// ---- dialect::doHOLA (cola/libdialect/hola.cpp:59-439) copied VERBATIM (the log / nli lambdas and the string_format
+// calls included, logger == nullptr; `log` takes a snapshot instead of calling the Logger), followed by a read-only
+// dump of the pipeline's graphs ------------------------------------------------------------------------------------
+using std::string;
+static void traceHOLA(Graph &G, const HolaOpts &holaOpts, Logger *logger = nullptr) {
+
+    // If there's no edges, there's nothing to do.
+    if (G.getNumEdges() == 0) return;
+
+    // Prepare logging functions in case a logger is given.
+    std::function<void(Graph&, string)> log = [logger](Graph &H, string name)->void{
+        snap(H, name.c_str());      // the ONLY edit of the copied statements (was: if (logger!=nullptr) logger->log(H, name);)
+    };
+    std::function<void(unsigned)> nli = [logger](unsigned ln)->void{
+        if (logger != nullptr) logger->nextLoggingIndex = ln;
+    };
+    // Initialise a logging index.
+    unsigned ln = 0;
+
+    // We let the given graph auto-infer its own ideal edge length, based on node sizes.
+    double IEL = G.getIEL();
+    // Pad nodes
+    double nodePadding = holaOpts.nodePaddingScalar*IEL;
+    G.padAllNodes(nodePadding, nodePadding);
+    // We need to dismantle the graph, so we begin by making a copy and we work on that instead.
+    // We allocate this copy on the heap, and manage it with a shared ptr, since many of our tools
+    // require that.
+    Graph_SP Gcopy = std::make_shared<Graph>(G);
+    // Clear any existing connector routes, for better logging output.
+    Gcopy->clearAllRoutes();
+
+    // Peel.
+    Trees trees = peel(*Gcopy);
+    // After peeling, the input graph is peeled down to its own core.
+    // Ac-cor-dingly : ) we rename it...
+    Graph_SP &core = Gcopy;
+
+    log(*core, string_format("%02d_core", ln++));
+
+    // If it's just a tree, layout and quit.
+    // We recognise this case by there being exactly one tree, containing the same number of
+    // nodes as the original graph.
+    if (trees.size() == 1 && trees.front()->underlyingGraph()->getNumNodes() == G.getNumNodes()) {
+        // Give the tree a symmetric layout.
+        Tree_SP &tree = trees.front();
+        tree->symmetricLayout(
+            holaOpts.defaultTreeGrowthDir,
+            holaOpts.treeLayoutScalar_nodeSep*IEL,
+            holaOpts.treeLayoutScalar_rankSep*IEL,
+            holaOpts.preferConvexTrees
+        );
+        // Route the edges.
+        RoutingAdapter ra(Avoid::OrthogonalRouting);
+        ra.router.setRoutingOption(Avoid::nudgeOrthogonalSegmentsConnectedToShapes, true);
+        ra.router.setRoutingOption(Avoid::nudgeSharedPathsWithCommonEndPoint, true);
+        ra.router.setRoutingParameter(Avoid::idealNudgingDistance, holaOpts.routingAbs_nudgingDistance);
+        tree->addNetworkToRoutingAdapter(ra, holaOpts.wholeTreeRouting);
+        ra.route();
+        // Remove node padding.
+        G.padAllNodes(-nodePadding, -nodePadding);
+        // Set layout data in original Graph.
+        tree->underlyingGraph()->setPosesInCorrespNodes(G);
+        tree->underlyingGraph()->setRoutesInCorrespEdges(G);
+        tree->addConstraints(G, true);
+        // Done.
+        return;
+    }
+
+    // Otherwise we do have a core and trees.
+
+    // Start with a plain destress -- no constraints, no overlap prevention -- in order to begin
+    // giving the nodes a reasonable distribution in the plane.
+    core->destress();
+
+    log(*core, string_format("%02d_free_destress_core", ln++));
+
+    // Now destress again, this time removing any node overlaps.
+    ColaOptions colaOpts;
+    colaOpts.preventOverlaps = true;
+    core->destress(colaOpts);
+
+    log(*core, string_format("%02d_OP_destress_core", ln++));
+
+    // Layout the hubs.
+    nli(ln);
+    OrthoHubLayoutOptions ohlOpts;
+    ohlOpts.avoidFlatTriangles = holaOpts.orthoHubAvoidFlatTriangles;
+    OrthoHubLayout ohl(core, ohlOpts);
+    ohl.layout(logger);
+
+    log(*core, string_format("%02d_core_ortho_hub", ln++));
+
+    // Set extra gap for boundary constraints.
+    core->getSepMatrix().setExtraBdryGap(IEL/2.0);
+
+    // Dissipate any stress accumulated during ortho hub layout, aiming to regain a natrual
+    // distribution for the nodes that remain unconstrained, and perhaps regain natural symmetries.
+    // This time, besides just preventing overlaps between nodes, we also prevent any nodes from
+    // overlapping with aligned edges.
+    colaOpts.solidifyAlignedEdges = true;
+    colaOpts.logger = logger;
+    nli(ln);
+    core->destress(colaOpts);
+
+    log(*core, string_format("%02d_EOP_destress_core", ln++));
+
+    // Next we lay out the links.
+    // We may or may not build Chains for this process. Later we will need to know whether chains
+    // were built, so the vector of Chains is declared at this scope.
+    Chains chains;
+    if (holaOpts.useACAforLinks) {
+        // Use ACA.
+        ACALayout aca(core);
+        aca.createAlignments();
+        // ACA is an older algorithm, from before we used Graphs.
+        // For backward compatibility, it does not automatically update its Graph with the
+        // positions and constraints from the layout, because it does not always /have/ a Graph.
+        // So we ask it to do the update.
+        aca.updateGraph();
+    } else {
+        // Use shape-conforming chain layout.
+        chains = buildAllChainsInGraph(core);
+        for (Chain_SP chain : chains) chain->takeShapeBasedConfiguration();
+        // We project before destressing with edge-node overlap prevention, so that the edges of
+        // the chain can be axis aligned first.
+        // We do NOT want overlap prevention for the projection, because the new chain configuration
+        // constraints may very well reverse one or more orthogonal orderings, and we need them to
+        // be free to do that.
+        colaOpts.preventOverlaps = false;
+        colaOpts.solidifyAlignedEdges = false;
+        core->project(colaOpts, vpsc::XDIM);
+        core->project(colaOpts, vpsc::YDIM);
+    }
+
+    // Destress with overlap prevention including aligned edges.
+    // At this time we also prepare for the next step, which involves connector routing.
+    // To ensure the routing is possible, we ensure there is some gap between all nodes.
+    // We do this by adding padding, destressing, and then removing this padding.
+    colaOpts.preventOverlaps = true;
+    colaOpts.solidifyAlignedEdges = true;
+    nli(ln);
+    double preRoutingGapIELScalar = 0.125;
+    double preRoutingGap = preRoutingGapIELScalar*IEL;
+    core->padAllNodes(preRoutingGap, preRoutingGap);
+    core->destress(colaOpts);
+    core->padAllNodes(-preRoutingGap, -preRoutingGap);
+    if (holaOpts.useACAforLinks) {
+        log(*core, string_format("%02d_core_link_config_ACA", ln++));
+    } else {
+        log(*core, string_format("%02d_core_link_config_Chains", ln++));
+    }
+
+    // Next is the phase in which we planarise the core.
+    // However, we want a 4-planar orthogonal layout with no leaves for this phase, so we first
+    // perform a special orthogonal connector routing, which ensures that no nodes will become
+    // leaves in the planarisation. (It does this by ensuring that connectors are routed to at
+    // least two distinct sides of each node.)
+    LeaflessOrthoRouter lor(core, holaOpts);
+    nli(ln);
+    lor.route(logger);
+    ++ln;
+
+    log(*core, string_format("%02d_core_leafless_ortho_route", ln++));
+
+    OrthoPlanariser op(core);
+    Graph_SP P = op.planarise();
+
+    log(*P, string_format("%02d_planar_graph_P", ln++));
+
+    // Set extra gap for boundary constraints.
+    P->getSepMatrix().setExtraBdryGap(IEL/2.0);
+    // Destress the new planar graph P, aiming to regain possible natural symmetries.
+    // But use overlap prevention so that the structure cannot change.
+    // (Note that now /all/ edges are aligned, so we have total edge-node overlap prevention.)
+    colaOpts.preventOverlaps = true;
+    colaOpts.solidifyAlignedEdges = true;
+    nli(ln);
+    P->destress(colaOpts);
+
+    log(*P, string_format("%02d_P_EOP_destress", ln++));
+
+    // Now we want to reattach the trees, choosing faces of the planarised core in which to
+    // place them.
+    // First the trees need their own symmetric layout.
+    unsigned lns = 0;  // initialise logging sub-index
+    for (Tree_SP tree : trees) {
+        tree->symmetricLayout(
+            holaOpts.defaultTreeGrowthDir,
+            holaOpts.treeLayoutScalar_nodeSep*IEL,
+            holaOpts.treeLayoutScalar_rankSep*IEL,
+            holaOpts.preferConvexTrees
+        );
+        log(*(tree->underlyingGraph()), string_format("%02d_%02d_symm_tree", ln, lns++));
+    }
+
+    ++ln;
+    nli(ln);
+    // Now we can choose faces and reattach them.
+    FaceSet_SP faceSet = reattachTrees(P, trees, holaOpts, logger);
+    ++ln;
+    // We will need the vector of chosen tree placements.
+    TreePlacements tps = faceSet->getAllTreePlacements();
+
+    // Next we insert the actual trees back into the planar graph.
+    // The trees come with buffer nodes. We build a record of those, so they can be
+    // ignored where necessary.
+    NodesById bufferNodes;
+    EdgesById treeEdges;
+    std::vector<NodesById> clustersSansBufferNodes;
+    for (auto tp : tps) {
+        tp->applyGeometryToTree();
+        NodesById treeNodes;
+        NodesById buffNodes;
+        tp->insertTreeIntoGraph(*P, treeNodes, buffNodes, treeEdges);
+        clustersSansBufferNodes.push_back(treeNodes);
+        treeNodes.insert(buffNodes.begin(), buffNodes.end());
+        bufferNodes.insert(buffNodes.begin(), buffNodes.end());
+        colaOpts.nodeClusters.push_back(treeNodes);
+    }
+
+    log(*P, string_format("%02d_P_with_trees", ln++));
+
+    // We don't need solid edges within the trees; moreover, this would cause constraint
+    // conflicts since the tree nodes now belong to clusters to which their solid edges
+    // would not belong.
+    colaOpts.solidEdgeExemptions = treeEdges;
+    // Destress using neighbour stress, in order to compactify.
+    colaOpts.useNeighbourStress = true;
+    // Now that we are using clusters to keep the tree nodes together, we make sure
+    // we do not use majorization, since ConstrainedMajorizationLayout does not work
+    // with RectangularClusters.
+    colaOpts.useMajorization = false;
+
+    nli(ln);
+    P->destress(colaOpts);
+
+    log(*P, string_format("%02d_P_nbr_destress", ln++));
+
+    // Do near alignments.
+    if (holaOpts.do_near_align) {
+        AlignmentTable atab(*P, bufferNodes);
+        for (size_t i = 0; i < holaOpts.align_reps; ++i) {
+            doNearAlignments(*P, atab, bufferNodes, holaOpts);
+            // After each attempt to add alignment constraints, destress, again using
+            // neighbour stress and majorization.
+            nli(ln);
+            P->destress(colaOpts);
+            log(*P, string_format("%02d_P_near_alignments", ln++));
+        }
+    }
+
+    // Delete buffer nodes.
+    P->removeNodes(bufferNodes);
+    colaOpts.nodeClusters = clustersSansBufferNodes;
+
+    // Rotate if desired.
+    if (holaOpts.preferredAspectRatio != AspectRatioClass::NONE) {
+        BoundingBox b = P->getBoundingBox(bufferNodes);
+        double w = b.w(),
+               h = b.h();
+        bool scaleBySize = true;
+        unsigned quarterTurnsCW = 0;
+        auto counts = faceSet->getNumTreesByGrowthDir(scaleBySize);
+        if ((w < h && holaOpts.preferredAspectRatio == AspectRatioClass::LANDSCAPE) ||
+            (h < w && holaOpts.preferredAspectRatio == AspectRatioClass::PORTRAIT)) {
+            // Need to rotate 90 degrees to get preferred aspect ratio.
+            // There are two ways to do this (clockwise and anticlockwise).
+            // In order to choose one, consult the preferred tree growth direction.
+            // Determine how many trees grow in the two directions 90 degrees away from this one.
+            CardinalDir q = holaOpts.preferredTreeGrowthDir,
+                        p = Compass::cardRotateAcw90(q),
+                        r = Compass::cardRotateCw90(q);
+            size_t np = counts[p],
+                   nr = counts[r];
+            nli(ln);
+            if (np >= nr) {
+                // In this case rotating clockwise will put more trees in the preferred
+                // growth direction.
+                P->rotate90cw(&colaOpts);
+                // We need to rotate the constraints in the core too, since later we're
+                // going to write those into the original graph.
+                core->getSepMatrix().transform(SepTransform::ROTATE90CW);
+                quarterTurnsCW = 1;
+            } else {
+                // In this case rotating anticlockwise is preferred.
+                P->rotate90acw(&colaOpts);
+                core->getSepMatrix().transform(SepTransform::ROTATE90ACW);
+                quarterTurnsCW = 3;
+            }
+            ln += 2;
+        } else {
+            // In this case we may rotate 180 degrees if that would put more trees in the preferred
+            // growth direction.
+            CardinalDir q = holaOpts.preferredTreeGrowthDir,
+                        s = Compass::cardFlip(q);
+            size_t nq = counts[q],
+                   ns = counts[s];
+            if (ns > nq) {
+                P->rotate180();
+                core->getSepMatrix().transform(SepTransform::ROTATE180);
+                quarterTurnsCW = 2;
+            }
+        }
+        // Update Tree growth directions as needed.
+        if (quarterTurnsCW != 0) {
+            for (Tree_SP tree : trees) tree->rotateGrowthDirCW(quarterTurnsCW);
+        }
+    }
+
+    log(*P, string_format("%02d_P_rotation", ln++));
+
+    // Translate if desired.
+    if (holaOpts.putUlcAtOrigin) {
+        NodesById ignore; // leave empty; don't ignore any nodes
+        bool includeBends = true; // we want the edge routes included
+        BoundingBox b = P->getBoundingBox(ignore, includeBends);
+        double dx = -b.x,
+               dy = -b.y;
+        P->translate(dx, dy);
+    }
+
+    log(*P, string_format("%02d_P_translation", ln++));
+
+    // At this point, we can ask the planar graph P to set node positions in the original graph G.
+    // This is because it is now true that for every node u in G, there is a node v in P with v.ID == u.ID.
+    // Initially, P had a GhostNode representing each Node in the core of G. But now we have also added
+    // the Trees into P (by calling insertTreeIntoGraph on each TreePlacement). P may have additional nodes
+    // that do not correspond to any nodes in G, but this does not matter.
+    P->setPosesInCorrespNodes(G);
+    // Similarly, P now holds the full set of constraints that we want to keep, so we can ask it to set
+    // those into G as well.
+    G.clearAllConstraints();
+    core->setCorrespondingConstraints(G);
+    P->setCorrespondingConstraints(G);
+    // Set extra gap for boundary constraints.
+    G.getSepMatrix().setExtraBdryGap(IEL/2.0);
+
+    // Final connector routing.
+    G.clearAllRoutes();
+
+    if (chains.size() > 0) {
+        // If we used Chains, then there may be AestheticBends that were set as route points for certain
+        // connectors. For these we made Nodes and added them to the core graph. We then made GhostNodes of
+        // these, in the planar graph P. In subsequent layout of P, the positions of these GhostNodes were updated.
+        // However, the Chains themselves still retain pointers not to these GhostNodes, but to the original
+        // AestheticBend nodes that were added to the core graph. Therefore before we can ask the Chains to add
+        // these route points into the Edges of the original Graph G, we must ask P to update their positions.
+        P->setPosesInCorrespNodes(*core);
+        for (Chain_SP ch : chains) ch->addAestheticBendsToEdges();
+        G.buildRoutes();
+    }
+    // Set up a routing adapter.
+    RoutingAdapter ra(Avoid::OrthogonalRouting);
+    ra.router.setRoutingOption(Avoid::nudgeOrthogonalSegmentsConnectedToShapes, true);
+    ra.router.setRoutingOption(Avoid::nudgeSharedPathsWithCommonEndPoint, true);
+    ra.router.setRoutingParameter(Avoid::crossingPenalty, 2*IEL);
+    ra.router.setRoutingParameter(Avoid::segmentPenalty, IEL/2.0);
+    ra.router.setRoutingParameter(Avoid::idealNudgingDistance, holaOpts.routingAbs_nudgingDistance);
+    // Ask the core graph to add its nodes, and just those edges that do not have any bend nodes.
+    // After asking G to clear all routes (remember G has the same Edges as core), these will be all and only
+    // those Edges for which no Chain set any aesthetic bend.
+    
+    // Remove part of the node padding now, to ensure open channels for connector routing.
+    double nodePaddingLayer1 = 2*preRoutingGapIELScalar*nodePadding;
+    double nodePaddingLayer2 = nodePadding - nodePaddingLayer1;
+    core->padAllNodes(-nodePaddingLayer1, -nodePaddingLayer1);
+    
+    core->addBendlessSubnetworkToRoutingAdapter(ra);
+    // Ask each Tree to add its network to the router.
+    for (Tree_SP tree : trees) {
+        tree->underlyingGraph()->padAllNodes(-nodePaddingLayer1, -nodePaddingLayer1);
+        tree->padCorrespNonRootNodes(G, -nodePaddingLayer1, -nodePaddingLayer1);
+        tree->addNetworkToRoutingAdapter(ra, holaOpts.peeledTreeRouting, core);
+    }
+    // Do the routing.
+    ra.route();
+    // Again, since the Edges of core also belong to G, those routes are already set in the original graph G.
+    // However the Edges of the Trees are new ones that were never in G. So we need to set those routes.
+    for (Tree_SP tree : trees) {
+        tree->underlyingGraph()->setRoutesInCorrespEdges(G);
+    }
+
+    // Remove remaining node padding.
+    G.padAllNodes(-nodePaddingLayer2, -nodePaddingLayer2);
+    // ---- end of the copied statements; everything below only reads
+    snap(*P, "P_final");
+    snap(*core, "core_final");      // node positions of the core are stale by now except the aesthetic bends; its SepMatrix and
+                                    // the leafless routes of the edges that are not edges of G are what matters
+    for (Chain_SP ch : chains)
+        for (AestheticBend_SP ab : ch->m_aestheticBends)
+            printf("C B %d %d %d %d %d\n", outId(ab->edge->getSourceEnd()->id()), outId(ab->edge->getTargetEnd()->id()),
+                   outId(ab->bendNode->id()), outId(ab->nbrNode1->id()), outId(ab->nbrNode2->id()));
+    for (Tree_SP tree : trees) {
+        printf("R %d", outId(tree->getRootNodeID()));
+        for (auto &p : tree->underlyingGraph()->getNodeLookup()) printf(" %d", outId(p.first));
+        printf("\n");
+    }
+}
+
 int main(int argc, char **argv)
 {
-    if (argc < 2) { fprintf(stderr, "usage: c14_hola casefile\n"); return 2; }
+    bool trace = false;
+    if (argc >= 2 && strcmp(argv[1], "--trace") == 0) { trace = true; --argc; ++argv; }    // no std::string here: see traceHOLA
+    if (argc < 2) { fprintf(stderr, "usage: c14_hola [--trace] casefile\n"); return 2; }
     std::ifstream in(argv[1]);
     if (!in) { fprintf(stderr, "cannot open %s\n", argv[1]); return 2; }
     std::string first;
@@ -128,6 +592,7 @@ int main(int argc, char **argv)
     }
     std::map<id_type, int> ext;
     for (auto &p : g->getNodeLookup()) ext[p.first] = p.second->getExternalId();
+    g_ext = ext;
     // the IEL exactly as doHOLA will compute it (hola.cpp:75; cached in m_iel, same value later)
     printf("P %.17g %.17g\n", opts.nodePaddingScalar, g->getIEL());
     for (auto &p : g->getNodeLookup()) {
@@ -142,7 +607,7 @@ int main(int argc, char **argv)
     fflush(stdout);
     auto t1 = std::chrono::steady_clock::now();
     try {
-        doHOLA(*g, opts);
+        if (trace) traceHOLA(*g, opts); else doHOLA(*g, opts);
     } catch (std::exception &e) {
         std::string w = e.what();
         std::replace(w.begin(), w.end(), '\n', ' ');
@@ -184,16 +649,17 @@ int main(int argc, char **argv)
         for (auto &q : r) printf(" %.17g %.17g", q.x, q.y);
         printf("\n");
     }
-    SepMatrix &m = g->getSepMatrix();
-    printf("A X %.17g\n", m.getExtraBdryGap());
-    for (auto &p : m.m_sparseLookup) for (auto &q : p.second) {
-        if (!q.second) continue;
-        const SepPair &sp = *q.second;
-        int a = ext.count(sp.src) ? ext[sp.src] : -(int)sp.src - 1000000;
-        int b = ext.count(sp.tgt) ? ext[sp.tgt] : -(int)sp.tgt - 1000000;
-        printf("A S %d %d %d %d %d %d %d %.17g %d %.17g\n", a, b, (int)sp.xgt, (int)sp.ygt, (int)sp.xst, (int)sp.yst,
-               (int)std::signbit(sp.xgap), std::fabs(sp.xgap), (int)std::signbit(sp.ygap), std::fabs(sp.ygap));
-    }
+    dumpSeps("A", g->getSepMatrix(), [&](id_type i) { return ext.count(i) ? ext[i] : -(int)i - 1000000; });
     printf("T %.3f\n", std::chrono::duration<double>(t2 - t1).count());
+    if (trace) {
+        for (auto &p : g->getEdgeLookup()) {
+            Nodes bn = p.second->getBendNodes();
+            if (bn.empty()) continue;
+            auto en = p.second->getEndIds();
+            printf("A B %d %d %zu", ext.count(en.first) ? ext[en.first] : -1, ext.count(en.second) ? ext[en.second] : -1, bn.size());
+            for (auto &b : bn) { Avoid::Point c = b->getCentre(); printf(" %d %.17g %.17g", outId(b->id()), c.x, c.y); }
+            printf("\n");
+        }
+    }
     return 0;
 }
